@@ -35,6 +35,7 @@ NOT_DECIDED = ['nothing of substance: Mach of terminal rows uses the speed of so
                '(one step of altitude; recorded assumption)']
 
 G_FT = Fraction('32.17405')
+SIGNED = {'tw', 'L', 'y', 'z', 'vy', 'vz', 'spin', 'Traw'}
 
 # field -> (dimension | None, unit, spec text).  Symbols: t x y z vx vy vz v a spin L rho drag w flag
 ROW_SPEC = {
@@ -60,31 +61,17 @@ DEFAULT_TOL = 1e-6
 
 
 def _same_cases(ev: Evaluator, got, want, tol: float) -> Optional[str]:
-    """Compare two guarded scalars leaf by leaf under the same guards.  None = equal."""
-    gl = list(cond_leaves(got))
-    for path, leaf in gl:
+    """Compare two guarded scalars leaf by leaf.  Every pair (code leaf, statement leaf) whose guards are not
+    contradictory is compared under the union of their guards.  None = equal."""
+    for gpath, gleaf in cond_leaves(got):
         w = want
-        for test, pol in path:
+        for test, pol in gpath:
             w = ev.restrict(w, test, pol)
-        if isinstance(w, Cond):
-            # the code has fewer cases than the statement: compare against each remaining case
-            for _p, wl in cond_leaves(w):
-                msg = _cmp_leaf(leaf, wl, tol)
-                if msg:
-                    return f'under {_fmt_path(path)}: {msg}'
-            continue
-        msg = _cmp_leaf(leaf, w, tol)
-        if msg:
-            return (f'under {_fmt_path(path)}: ' if path else '') + msg
-    # and the other way round: cases the statement distinguishes
-    for path, wl in cond_leaves(want):
-        g = got
-        for test, pol in path:
-            g = ev.restrict(g, test, pol)
-        for _p, leaf in cond_leaves(g):
-            msg = _cmp_leaf(leaf, wl, tol)
+        for wpath, wleaf in cond_leaves(w):
+            msg = _cmp_leaf(gleaf, wleaf, tol, list(gpath) + list(wpath))
             if msg:
-                return (f'under {_fmt_path(path)}: ' if path else '') + msg
+                conds = list(gpath) + list(wpath)
+                return (f'under {_fmt_path(conds)}: ' if conds else '') + msg
     return None
 
 
@@ -92,14 +79,72 @@ def _fmt_path(path) -> str:
     return ' and '.join(('' if pol else 'not ') + repr(t) for t, pol in path) or 'always'
 
 
-def _cmp_leaf(g, w, tol: float) -> Optional[str]:
+def _sample_points(conds, syms, n=8, tries=400):
+    """Sample points of the symbols that satisfy the guards (ordering enumeration by rejection sampling; an equality
+    guard on a single symbol fixes it)."""
+    import random
+    rnd = random.Random(11)
+    fixed = {}
+    for t, pol in conds:
+        if t.rf is not None and t.kind == 'nz' and not pol:
+            at = t.rf.as_atom()
+            if at is not None and at.kind == 'sym':
+                fixed[at.name] = 0.0
+    out = []
+    for _ in range(tries):
+        # every other try keeps all symbols positive (fractional powers of times and lengths)
+        # physical domain: times, distances down range, speeds, weights, stability are positive; only the symbols in
+        # SIGNED (twist direction, angles, heights, lateral offsets, velocity components) take both signs
+        env = {s_: (rnd.choice([-1, 1]) if s_ in SIGNED else 1) * rnd.uniform(0.3, 3.0) for s_ in syms}
+        env.update(fixed)
+        ok = True
+        for t, pol in conds:
+            if t.rf is None:
+                continue
+            try:
+                x = t.rf.evalf(env)
+            except (KeyError, ZeroDivisionError, ValueError, OverflowError, TypeError):
+                ok = False
+                break
+            if isinstance(x, complex) or {'nz': x != 0, 'pos': x > 0, 'nonneg': x >= 0}[t.kind] != pol:
+                ok = False
+                break
+        if ok:
+            out.append(env)
+            if len(out) >= n:
+                break
+    return out
+
+
+def _cmp_leaf(g, w, tol: float, conds=()) -> Optional[str]:
     if isinstance(g, Raised) or isinstance(w, Raised):
         return None if isinstance(g, Raised) and isinstance(w, Raised) else f'code gives {g!r}, statement gives {w!r}'
     if not isinstance(g, Scalar) or not isinstance(w, Scalar):
         return f'code gives {g!r}, statement gives {w!r}'
     if A.approx_equal(g.rf, w.rf, tol):
         return None
-    return f'code computes {g.rf!r}, the statement says {w.rf!r}'
+    # the two normal forms differ structurally.  They are compared at sample points that satisfy the guards of both
+    # sides: a differing point refutes; if no admissible point exists the pair of cases is contradictory (skipped);
+    # agreement at every point (functions the algebra does not interpret: copysign, abs of a product) is accepted
+    syms = sorted((g.rf.symbols() | w.rf.symbols() | {s_ for t, _p in conds if t.rf is not None for s_ in t.rf.symbols()}) - {'pi'})
+    pts = _sample_points(conds, syms)
+    if not pts:
+        return None if conds else f'code computes {g.rf!r}, the statement says {w.rf!r}'
+    n_eval = 0
+    for envn in pts:
+        try:
+            a_, b_ = g.rf.evalf(envn), w.rf.evalf(envn)
+            n_eval += 0 if isinstance(a_, complex) or isinstance(b_, complex) else 1
+        except (KeyError, ZeroDivisionError, ValueError, OverflowError, TypeError):
+            return f'code computes {g.rf!r}, the statement says {w.rf!r}'
+        if isinstance(a_, complex) or isinstance(b_, complex):
+            continue
+        if abs(a_ - b_) > max(tol, 1e-9) * max(abs(a_), abs(b_)) + 1e-300:
+            return (f'code computes {g.rf!r}, the statement says {w.rf!r} (e.g. at '
+                    f'{ {k: round(v, 3) for k, v in envn.items()} }: {a_:.6g} vs {b_:.6g})')
+    if n_eval == 0:
+        return f'code computes {g.rf!r}, the statement says {w.rf!r}'
+    return None
 
 
 def _unit_raw(ev: Evaluator, prog: Program, unit_name: str, value) -> object:
